@@ -278,7 +278,7 @@ func checkC08(r *core.Run, p *core.Program) {
 	if f := findFn(p, "cte", "Decoder.markBytesRead"); f != nil {
 		e := &effectCtx{a: a, p: p}
 		got := e.summarize(f.Obj)
-		r.Check("C08.cte-precheck", "cte.Decoder.markBytesRead", f.Decl.Pos(), got == "if(?pure:conv($byteCount)>$_this.config.Rules.MaxDocumentSizeBytes){reject}", "size guard is `"+got+"`")
+		r.Check("C08.cte-precheck", "cte.Decoder.markBytesRead", f.Decl.Pos(), sameEffect(got, []string{"if(?pure:conv($byteCount)>$_this.config.Rules.MaxDocumentSizeBytes){reject}"}), "size guard is `"+got+"`")
 	}
 
 	// chunk bound on the validator side
